@@ -345,3 +345,96 @@ func init() {
 		return true
 	}
 }
+
+func init() {
+	// (*Unstructured).UnmarshalJSON goes through a scheme-based decoder; the
+	// effect on a JSON object is to replace the content.
+	externals["(*k8s.io/apimachinery/pkg/apis/meta/v1/unstructured.Unstructured).UnmarshalJSON"] = func(fr *frame, args []value) value {
+		i := fr.i
+		return i.jsonGuard(func() value {
+			data := args[1].([]value)
+			var tree iface
+			if len(data) == 1 {
+				if b, ok := data[0].(jsonBlob); ok {
+					tree = i.copyTree(b.tree)
+				}
+			}
+			if tree.t == nil {
+				tree = i.jsonBytesToTree(fr, bytesOf(fr, data, "JSON text"))
+			}
+			m, ok := tree.v.(*omap)
+			if !ok {
+				jsonFail("cannot unmarshal %s into an unstructured object", jsonKind(tree.v))
+			}
+			f := i.findMethod(types.NewPointer(mustDeref(fr.fn.Signature.Recv().Type())), "SetUnstructuredContent")
+			call(i, fr, token.NoPos, f, []value{args[0], m})
+			return iface{}
+		}, func(e value) value { return e })
+	}
+	externals["(*k8s.io/apimachinery/pkg/apis/meta/v1/unstructured.Unstructured).MarshalJSON"] = func(fr *frame, args []value) value {
+		f := fr.i.findMethod(types.NewPointer(mustDeref(fr.fn.Signature.Recv().Type())), "UnstructuredContent")
+		m := call(fr.i, fr, token.NoPos, f, []value{args[0]})
+		return extJSONMarshal(fr, []value{iface{tMapStrAny, m}})
+	}
+	// client.MergeFrom(orig).Data(obj): the JSON merge patch from orig to obj,
+	// computed structurally (RFC 7386) instead of on JSON text.
+	externals["(*sigs.k8s.io/controller-runtime/pkg/client.mergeFromPatch).Data"] = func(fr *frame, args []value) value {
+		i := fr.i
+		return i.jsonGuard(func() value {
+			recv := (*args[0].(*value)).(structure)
+			from := recv[2].(iface)
+			opts := recv[3].(structure)
+			if b, ok := opts[0].(bool); ok && b {
+				unsupported("MergeFrom with optimistic lock")
+			}
+			toTree := func(o iface) *omap {
+				if f := i.findMethod(o.t, "UnstructuredContent"); f != nil {
+					m := call(i, fr, token.NoPos, f, []value{o.v}).(*omap)
+					return m
+				}
+				return i.normalizeTree(fr, o).v.(*omap)
+			}
+			patch := i.mergeDiff(fr, toTree(from), toTree(args[1].(iface)))
+			tree := iface{tMapStrAny, patch}
+			if treeHasSym(tree) {
+				return tuple{[]value{jsonBlob{tree}}, iface{}}
+			}
+			b, err := json.Marshal(i.treeToNative(tree))
+			if err != nil {
+				jsonFail("%v", err)
+			}
+			return tuple{bytesValue(b), iface{}}
+		}, func(e value) value { return tuple{[]value(nil), e} })
+	}
+}
+
+// mergeDiff returns the RFC 7386 merge patch that turns a into b.
+func (i *interpreter) mergeDiff(fr *frame, a, b *omap) *omap {
+	out := makeMap(types.Typ[types.String], 0).(*omap)
+	b.each(func(k, bv value) {
+		av, ok := a.lookup(fr, k)
+		if !ok {
+			out.insert(fr, k, bv)
+			return
+		}
+		am, aIsMap := av.(iface).v.(*omap)
+		bm, bIsMap := bv.(iface).v.(*omap)
+		if aIsMap && bIsMap && am != nil && bm != nil {
+			d := i.mergeDiff(fr, am, bm)
+			if d.len() > 0 {
+				out.insert(fr, k, iface{tMapStrAny, d})
+			}
+			return
+		}
+		eq := deepEqualTermOpt(av, bv, map[[2]*value]bool{}, false)
+		if !i.condValue(boolValue(eq)) {
+			out.insert(fr, k, bv)
+		}
+	})
+	a.each(func(k, _ value) {
+		if _, ok := b.lookup(fr, k); !ok {
+			out.insert(fr, k, iface{})
+		}
+	})
+	return out
+}
